@@ -53,10 +53,10 @@ def run_api_op(kind, op, op_index, solver, sc, h, recog: Recognizer, world, reco
     grammar = sc["grammar"]
 
     def v(clause, detail, sig=None):
-        from gen.formulas import features
+        from gen.formulas import features_with_grammar
 
         d = {"property": "C18", "clause": clause, "op_index": op_index, "solver": i, "detail": detail[:400],
-             "features": features(sc["formula"])}
+             "features": features_with_grammar(sc["formula"], sc["grammar"])}
         if sig:
             d["signature"] = sig
         viol.append(d)
